@@ -187,7 +187,7 @@ def unbind_checks(chk):
   initialisation - for setup-declared children and for attribute trees in which one instance is shared (at one or two depths)."""
   import flax.linen as nn
   rngs = lc.rngs_for(['params'])
-  for pattern in ('two-depths', 'same-depth', 'reversed', 'unshared'):
+  for pattern in ('two-depths', 'same-depth', 'reversed', 'unshared', 'dict-attr'):
     key = f'C02:unbind:{pattern}'
     top = ds.PairTop(pattern=pattern)
     try:
@@ -203,6 +203,15 @@ def unbind_checks(chk):
     chk.count(key)
     if not np.array_equal(alone, inside):
       chk.violation(key, f'the unbound submodule applied on its own subtree returns {alone.tolist()}, inside its parent {inside.tolist()}', {'pattern': pattern})
+    # the unbound module is really unbound: on other variables of the same structure it computes with *those*
+    try:
+      other = jax.tree_util.tree_map(lambda v: v + 1 if np.asarray(v).dtype == np.int32 else v, sub_vars)
+      alone2 = np.asarray(sub.apply(other, mutable=['st'])[0])
+      if not np.array_equal(alone2[..., 0], alone[..., 0] + 1):
+        chk.violation(key, f'the unbound submodule applied on other variables (counters + 1) returns counters {alone2[..., 0].tolist()}, expected '
+                           f'{(alone[..., 0] + 1).tolist()}: it still computes with the variables it was bound to', {'pattern': pattern})
+    except Exception as e:
+      chk.violation(key, f'applying the unbound submodule on other variables raised {type(e).__name__}: {str(e)[:160]}', {'pattern': pattern})
     if set(ds.flatten(fresh)) != set(ds.flatten(sub_vars)):
       chk.violation(key, f'initialising the unbound submodule gives variables {sorted(ds.flatten(fresh))}, its subtree in the parent has '
                          f'{sorted(ds.flatten(sub_vars))}', {'pattern': pattern})
